@@ -9,7 +9,8 @@ characters, a non-ASCII letter), token instances as arguments, invalid arguments
 from . import _cls
 from .. import vcrun
 
-G9 = ["pregex.core.classes." + c + ".__init__" for c in ("AnyBetween", "AnyButBetween", "AnyFrom", "AnyButFrom")]
+G9 = ["pregex.core.classes." + c + ".__init__" for c in ("AnyBetween", "AnyButBetween", "AnyFrom", "AnyButFrom")] + \
+     ["pregex.core.classes.__Class.__chars_to_ranges"]      # the part of __process that merges characters into ranges
 
 LEVEL = "exploration"
 
